@@ -4,6 +4,10 @@ tier=${1:-quick}
 cd /verif || exit 2
 for p in $(python3 -c "import json;print(' '.join(c['property_id'] for c in json.load(open('MANIFEST.json'))['checks']))"); do
   echo "=== $p $tier"
-  scripts/check.sh $p $tier 2>&1 | tail -4
-  echo "exit=$?"
+  scripts/check.sh $p $tier > /tmp/runall_$p.log 2>&1
+  rc=$?
+  grep -E "^(VIOLATION|KNOWN-FINDING|HARNESS)" /tmp/runall_$p.log | cut -c1-300 | head -20
+  tail -1 /tmp/runall_$p.log
+  rm -f /tmp/runall_$p.log
+  echo "exit=$rc"
 done
